@@ -39,6 +39,29 @@ PROPERTIES = {
                         "decreases='unproved')", "_send fragmentation",
                         "induction over network histories (exactly once, prefix)"],
     },
+    "C04": {
+        "claim": "Proof for the two pieces of DTLS identity and key handling that are code of this repository: "
+                 "RTCDtlsTransport._validate_peer_identity leaves the transport state untouched exactly when at least one "
+                 "signalled fingerprint names a supported hash (sha-256/384/512, name compared case-insensitively) and every "
+                 "fingerprint with a supported hash equals the digest of the peer's certificate (value compared "
+                 "case-insensitively), and otherwise ends in FAILED; it raises nothing. RTCDtlsTransport._set_state stores the "
+                 "state and emits 'statechange' only on a change (listeners see the new state). SRTPProtectionProfile."
+                 "get_key_and_salt(src, idx) returns key idx followed by salt idx of the exported keying material laid out as "
+                 "client key | server key | client salt | server salt, for either role index. Reduced: the handshake, the "
+                 "certificate digest, key export and SRTP protect/unprotect are external C code (OpenSSL, cryptography, "
+                 "libsrtp); that start() stops after FAILED and hands nothing over, which role uses which index in "
+                 "_setup_srtp, and the refusal of _send_* unless CONNECTED are not under contract.",
+        "note": "certificate_digest is an assumed contract (a function of certificate and algorithm, uf_str('digest', ...)); the "
+                "certificate is whatever self._ssl.get_peer_certificate() returns (a read-only query of an external object, "
+                "uf_any). In replays a fixed stand-in digest is used, since rebuilt transports carry no real certificate.",
+        "design_ref": "DESIGN.md 4.4, 9",
+        "trusted_base": COMMON + ["assumed contract: certificate_digest (cryptography/OpenSSL)",
+                                  "pyOpenSSL Connection.get_peer_certificate() is a read-only query"],
+        "not_decided": ["start(): FAILED after identity check means no CONNECTED, no data pump, no keys handed over",
+                        "_setup_srtp: client writes with index 0 and reads with index 1, server the reverse (mirror-image keys)",
+                        "_send_rtp/_send_data refuse unless CONNECTED; _recv_next drops packets failing SRTP authentication",
+                        "everything inside OpenSSL / libsrtp"],
+    },
     "C05": {
         "claim": "Proof, for the RTP/RTCP wire parsers under contract (rtp.py: unpack_remb_fci, unpack_header_extensions, "
                  "unpack_packets_lost, RtcpReceiverInfo.parse, RtcpSenderInfo.parse, RtcpPsfbPacket.parse, RtcpByePacket.parse, "
@@ -321,7 +344,6 @@ _NOT_BUILT = ("not claimed: the function contracts planned for it in DESIGN.md s
 NOT_APPLICABLE = {
     "C02": "liveness over fault histories is not expressible as a function contract; the planned necessary-condition contracts (flight-size accounting, F-14) were not built",
     "C03": _NOT_BUILT + " (negotiation algebra); 'the session actually connects' is outside contracts (DESIGN 4.3)",
-    "C04": "OpenSSL handshake, key export and libsrtp are external C code; the repo-owned fingerprint comparison contract was not built (DESIGN 4.4)",
     "C09": "SDP parse/serialise is string/regex code; no contract within reach of the installed solvers decides the round trip (DESIGN 4.9)",
     "C19": "termination and absence of leftover tasks/threads across coroutine interleavings is not expressible as a function contract (DESIGN 4.19)",
 }
